@@ -3040,7 +3040,7 @@ func rangeInt(n *node) {
 	index := index0
 	ixn.exec = func(f *frame) bltn {
 		f.data[index2] = reflect.ValueOf(value(f).Interface()) // set max: the operand is evaluated once
-		f.data[index].SetInt(-1)  // assing index value
+		f.data[index].SetInt(-1)                               // assing index value
 		return next
 	}
 }
